@@ -10,6 +10,7 @@ import (
 	"go/types"
 	"os"
 	"path/filepath"
+	"sfcheck/an"
 	"sort"
 	"strings"
 	"time"
@@ -208,11 +209,25 @@ func (c *Ctx) Field(rel, typ, field string) *types.Var {
 
 // Func finds the SSA function for a package-level function or method "T.m".
 func (c *Ctx) Func(rel, name string) *ssa.Function {
-	obj, _ := c.LookupObj(rel, name).(*types.Func)
-	if obj == nil || c.Prog == nil {
+	if c.Prog == nil {
 		return nil
 	}
-	return c.Prog.FuncValue(obj)
+	obj, _ := c.LookupObj(rel, name).(*types.Func)
+	if obj == nil {
+		// not under this name: the function may have been renamed (same receiver, same signature, unique both ways)
+		recv, fname := "", name
+		if i := strings.Index(name, "."); i >= 0 {
+			recv, fname = name[:i], name[i+1:]
+		}
+		if f := an.FindPinned(c.SSAPkg(rel), recv, fname); f != nil {
+			c.Anchors["renamed: "+name] = f.Name()
+			return f
+		}
+		return nil
+	}
+	fn := c.Prog.FuncValue(obj)
+	// a function that exists under this name but is not the pinned one (the name was reused) is still what the name says
+	return fn
 }
 
 // Decl finds the syntax of a function or method "T.m".
